@@ -17,7 +17,7 @@
 (* Sample content is never stored: segs holds *references* [src, a, b) =    *)
 (* "ids a..b-1 come from write event src" (src = 0: fill values).           *)
 (***************************************************************************)
-EXTENDS Integers, Sequences, FiniteSets, SigDef
+EXTENDS Integers, Sequences, FiniteSets, SigDef, Tmap
 
 SrcTok0 == <<"h:24:5b4486e46d780d11", "s:jls", "s:-", "s:1.0.0", "s:-">>   \* SOURCE_0 of src/writer.c
 Sig0Name == "h:24:4e42a77955b956d0"                                       \* "global_annotation_signal"
@@ -37,7 +37,7 @@ NewSig(ev) ==
      name |-> AbsentToEmpty(ev.name), units |-> AbsentToEmpty(ev.units),
      has |-> FALSE, first |-> 0, next |-> 0, segs |-> <<>>,
      reg |-> 0, nblk |-> 0, synth |-> {},
-     annos |-> <<>>, utcs |-> <<>>]
+     annos |-> <<>>, utcs |-> <<>>, i2t |-> {}, t2i |-> {}]
 
 Sig0Ev == [id |-> 0, src |-> 0, st |-> 1, dt |-> "f32", bits |-> 32, rate |-> 0, spd |-> 10, sdf |-> 10, eps |-> 10,
            sumdf |-> 10, adf |-> 100, udf |-> 100, name |-> Sig0Name, units |-> "s:"]
@@ -203,6 +203,41 @@ RdSignalVerdict(S, ev) ==
     ELSE IF ev.rc # 0 THEN "signal read failed"
     ELSE IF ev.def = SigRec(S.sigs[Idx(S.sigs, ev.id)]) THEN "" ELSE "signal definition differs from the one written (as normalised)"
 
+\* ---- sample id <-> time (C12); anchors are the UTC pairs written, <<id, t>>
+TicksPerSample(rate) == CASE rate = 1073741824 -> <<1, 1>>
+                          [] rate = 268435456 -> <<4, 1>>
+                          [] rate = 16777216 -> <<64, 1>>
+                          [] rate = 1048576 -> <<1024, 1>>
+                          [] rate = 1000000000 -> <<2097152, 1953125>>
+                          [] OTHER -> <<0, 0>>
+Swap(A) == [i \in 1..Len(A) |-> <<A[i][2], A[i][1]>>]
+StrictlyIncreasing(A) == \A i \in 2..Len(A) : A[i][1] > A[i-1][1]
+
+ConvVerdict(g, A, x0, res, rc, tps, seen) ==
+    IF Len(A) = 0 THEN (IF rc = 0 THEN "conversion without any UTC entry succeeded" ELSE "")
+    ELSE IF rc # 0 THEN "conversion failed although UTC entries exist"
+    ELSE IF Len(A) = 1 THEN
+        (IF tps[1] = 0 \/ RateOk(A[1], x0, res, tps[1], tps[2]) THEN "" ELSE "single-entry conversion is off the nominal sample rate")
+    ELSE IF ~StrictlyIncreasing(A) THEN ""
+    ELSE IF ~ExactAtAnchors(A, x0, res) THEN "conversion does not reproduce a stored pair"
+    ELSE IF ~InterpOk(A, x0, res) THEN "conversion is more than one unit off the linear interpolation"
+    ELSE IF \E p \in seen : (p[1] <= x0 /\ p[2] > res) \/ (p[1] >= x0 /\ p[2] < res) THEN "conversion is not monotone"
+    ELSE ""
+
+I2TVerdict(S, ev) ==
+    IF ~UtcAccept(S, ev) THEN (IF ev.rc = 0 THEN "conversion on an undefined or non-FSR signal" ELSE "")
+    ELSE LET g == S.sigs[Idx(S.sigs, ev.sig)] IN
+         ConvVerdict(g, g.utcs, ev.id, ev.res, ev.rc, TicksPerSample(g.rate), g.i2t)
+T2IVerdict(S, ev) ==
+    IF ~UtcAccept(S, ev) THEN (IF ev.rc = 0 THEN "conversion on an undefined or non-FSR signal" ELSE "")
+    ELSE LET g == S.sigs[Idx(S.sigs, ev.sig)]
+             tps == TicksPerSample(g.rate)
+             v == ConvVerdict(g, Swap(g.utcs), ev.t, ev.res, ev.rc, <<tps[2], tps[1]>>, g.t2i)
+         IN IF v # "" THEN v
+            ELSE IF ev.rc = 0 /\ \E p \in g.i2t : p[2] = ev.t /\ Abs(p[1] - ev.res) > 1
+                 THEN "time -> sample id is not the inverse of sample id -> time within one sample"
+            ELSE ""
+
 --------------------------------------------------------------------------
 Verdict(S, ev) ==
     CASE ev.e = "WOpen"     -> IF ev.rc = 0 THEN "" ELSE "open for writing failed"
@@ -226,6 +261,8 @@ Verdict(S, ev) ==
       [] ev.e = "RdSources" -> RdSourcesVerdict(S, ev)
       [] ev.e = "RdSignals" -> RdSignalsVerdict(S, ev)
       [] ev.e = "RdSignal"  -> RdSignalVerdict(S, ev)
+      [] ev.e = "I2T"       -> I2TVerdict(S, ev)
+      [] ev.e = "T2I"       -> T2IVerdict(S, ev)
       [] ev.e = "Abnormal"  -> "abnormal termination (" \o ev.kind \o ")"
       [] OTHER -> ""
 
@@ -245,5 +282,7 @@ Update(S, ev) ==
                               THEN [S EXCEPT !.ud = Append(@, <<ev.meta % 4096, ev.st, ev.tok, ev.size>>)] ELSE S
       [] ev.e = "WClose" -> [S EXCEPT !.mode = "closed", !.sigs = [i \in 1..Len(S.sigs) |-> CloseSig(S.sigs[i])]]
       [] ev.e = "ROpen" -> IF ev.rc = 0 /\ S.mode = "closed" THEN [S EXCEPT !.mode = "closed"] ELSE S
+      [] ev.e = "I2T" -> IF ev.rc = 0 /\ UtcAccept(S, ev) THEN UpdSig(S, ev.sig, LAMBDA g : [g EXCEPT !.i2t = @ \cup {<<ev.id, ev.res>>}]) ELSE S
+      [] ev.e = "T2I" -> IF ev.rc = 0 /\ UtcAccept(S, ev) THEN UpdSig(S, ev.sig, LAMBDA g : [g EXCEPT !.t2i = @ \cup {<<ev.t, ev.res>>}]) ELSE S
       [] OTHER -> S
 ==========================================================================
